@@ -385,11 +385,35 @@ def deviant_session(ctx, label, actions, conf, seed):
                     break
                 p.do(['tick', 5])
                 p.drain()
+            alive = p.established()
+            # wind-down: every IKE_SA is closed by its lifetime; whatever the peer had made an endpoint accept before
+            # (e.g. a CHILD_SA with an odd SPI) must not make the removal fail and leave a dead entry behind
+            for n in 'AB':
+                for sa in p.ep(n).controller.ike_sas:
+                    sa.delete_ike_sa_at = p.sim.clock - 1
+            n1 = len(p.sim.log_records)
+            for _ in range(8):
+                p.do(['tick', 1])
+                p.drain()
+            for _ in range(40):
+                if not (p.A.controller.ike_sas or p.B.controller.ike_sas):
+                    break
+                p.do(['tick', 5])
+                p.drain()
+            errors = [m for lv, m in p.sim.log_records[n1:] if 'Unexpected error while processing an event' in m]
+            # (half-open responder entries and REKEYED entries have no timer and may stay: an observation of DESIGN 10.4,
+            # not part of C17; what must not stay is an IKE_SA that ENDED, or kernel SAs)
+            left = [(n, int(s.state)) for n in 'AB' for s in p.ep(n).controller.ike_sas if int(s.state) == 21]
+            if errors or left or p.A.kernel.sad or p.B.kernel.sad:
+                return [Failure('property', 'loop:dead-ike-sa-in-table',
+                                f'{label}: closing every IKE_SA by its lifetime left {left} in the tables, '
+                                f'{len(p.A.kernel.sad)}+{len(p.B.kernel.sad)} kernel SAs, and {len(errors)} loop iterations '
+                                f'failed ({errors[:1]})', rep)]
         except LoopEscape as ex:
             return [Failure('property', 'loop:escaped-exception', f'{label}: {ex.exc!r}', rep)]
         # one-shot deviations and hostile reinjections must not prevent a later negotiation; configurations that are
         # incompatible by design (asym/, rsa/wrong_key) can never establish and are exempt from this clause
-        if label.startswith(('dev', 'edge')) and not p.established():
+        if label.startswith(('dev', 'edge')) and not alive:
             return [Failure('property', 'loop:no-progress-after-misbehaviour',
                             f'{label}: 20 virtual minutes after the history a fresh ACQUIRE does not lead to an '
                             f'established IKE_SA pair: A {[int(s.state) for s in p.A.controller.ike_sas]} B '
